@@ -184,6 +184,8 @@ class Stmts(Exec):
                 raise Unsupported('assignment to undeclared field %s.%s at %s' % (b.t.cls, name, self.loc(node)))
             self.setfield(st, b, name, v)
             return [(st, NORMAL)]
+        if isinstance(b.t, OpaqueT) and b.t.n == 'Dyn':
+            st.trace.append(('setattr', attr)); return [(st, NORMAL)]
         if isinstance(b.t, OpaqueT):
             key = b.t.n + '.__setattr__.' + attr
             m = self.reg.find_model(key)
@@ -239,6 +241,9 @@ class Stmts(Exec):
             return outs
         elif v.t == NONE:
             return [self.raise_(st, 'TypeError', 'unpack of None at %s' % self.loc(tgt))]
+        elif v.t.name() == 'Dyn':
+            from . import dyn
+            items = [V(v.t, dyn.ITEM(v.z, z3.IntVal(i))) for i in range(n)]
         else: raise Unsupported('unpack of %s at %s' % (v.t, self.loc(tgt)))
         return self._assign_items(st, tgt, items)
 
@@ -498,6 +503,11 @@ class Stmts(Exec):
                 else: eff['everything'] = True; return
             elif isinstance(c, BoundMethod): name = c.cls + '.' + c.name; recv = c.selfv
             elif isinstance(c, BoundModel): name = c.name; recv = c.recv
+        elif fv.t.name() == 'Dyn':
+            from . import dyn
+            recv_z, attr = dyn.decode_attr(fv.z)
+            if attr is not None and self.reg.find_model('Dyn.' + attr) is not None and ('Dyn.' + attr) not in self.reg.pure_names: eff['ghost'] = True
+            return
         else:
             eff['everything'] = True; return
         u = self.reg.find_unit(name)
@@ -513,6 +523,10 @@ class Stmts(Exec):
                 else: eff['everything'] = True
             return
         if name in self.reg.pure_names or any(__import__('fnmatch').fnmatchcase(name, p) for p in self.reg.pure_names): return
+        if getattr(self.reg, 'dyn', False) and self.reg.find_model(name) is None and self.reg.find_opaque(name) is None:
+            short = 'Dyn.' + name.split('.')[-1]
+            if self.reg.find_model(short) is not None and short not in self.reg.pure_names: eff['ghost'] = True
+            return
         if self.reg.find_model(name) is not None or self.reg.find_opaque(name) is not None:
             eff['ghost'] = True
             eff_fn = self.reg.model_effects.get(name)
